@@ -41,7 +41,7 @@ func split(ctx context.Context, r io.Reader) (<-chan string, <-chan error) {
 			}
 		}
 		if err := sc.Err(); err != nil {
-			errc <- err
+			sendErr(ctx, errc, err)
 			return
 		}
 		select {
@@ -53,6 +53,16 @@ func split(ctx context.Context, r io.Reader) (<-chan string, <-chan error) {
 	}()
 
 	return blockc, errc
+}
+
+// sendErr reports err on errc unless the pipeline has already been cancelled.
+// handlePipelineErr receives at most one value per stage and every call cancels ctx when it returns,
+// so a plain send from the second failing worker of a stage would block forever.
+func sendErr(ctx context.Context, errc chan<- error, err error) {
+	select {
+	case errc <- err:
+	case <-ctx.Done():
+	}
 }
 
 func isRootBlockBeginning(l string) bool {
